@@ -109,7 +109,8 @@ class C08(Check):
                   "argument does influence later arguments of the same message (raise(hexer{255},16) = \"ff10\"); the message theorem "
                   "and the driver are restricted to arguments that leave the stream state alone. std::regex's search for the literal '{}' is modelled as first occurrence "
                   "(find); the correspondence is bounded-exhaustive + sampled, not proved. Only the char instantiation of the formatter "
-                  "is exercised (nitro::format(std::string) and nitro::format(const char*); not wchar_t/char16_t/char32_t, not the _nf "
+                  "is exercised, with string arguments in every value category (const / non-const lvalue, temporary, const char*, char) "
+                  "(nitro::format(std::string) and nitro::format(const char*); not wchar_t/char16_t/char32_t, not the _nf "
                   "literal); what() is compared for NUL-free messages only")
     rule = ("exhaustive: every format string over {'{','}','a'} up to a length bound (6 quick, 8 thorough) x every argument count "
             "0..k+1 (k = number of placeholders) x every argument tuple over {\"\", x, {}, {, }} x two call styles (a chain of %, one "
@@ -230,6 +231,37 @@ class C08(Check):
                 yield "fmt " + " ".join(fs[0]), "fmt-sticky-rand"
             else:
                 yield "seq " + " / ".join(" ".join(g) for g in fs), "seq-rand"
+        # value categories of string arguments: s const lvalue, n the caller's non-const variable (same text = same variable),
+        # r temporary, l const char*, c char — the same variable for several placeholders and again in a later formatter
+        POOL = ["n616263", "n78", "s616263", "r616263", "l616263", "c61", "n-"]
+        for k in range(1, 4 if tier == "quick" else 5):
+            f = "<" + "|".join(["{}"] * k) + ">"
+            for tup in itertools.product(POOL, repeat=k):
+                args = [A(x) for x in tup]
+                yield fmt_case(f, chain_pct(args)), "fmt-valcat"
+                yield fmt_case(f, chain_args(args)), "fmt-valcat"
+                if k >= 2:
+                    yield fmt_case(f, chain_mixed(args, rng)), "fmt-valcat"
+        for a in POOL:
+            for b in POOL:
+                yield "seq %s p:%s / %s a:%s,%s / %s p:%s" % (hx("{}"), a, hx("{}-{}"), b, a, hx("[{}]"), a), "seq-valcat"
+                yield "os 8 2a l %s a:%s,%s" % (hx("{}{}"), a, b), "os-valcat"
+        R = 800 if tier == "quick" else 10000
+        for _ in range(R):
+            texts = ["".join(rng.choice("ab{} ") for _ in range(rng.randint(0, 6))) for _ in range(rng.randint(1, 3))]
+            fs = []
+            for _ in range(rng.randint(1, 3)):
+                k = rng.randint(1, 5)
+                n = max(0, k + rng.choice([0, 0, 0, 0, 1, -1]))
+                args = []
+                for _ in range(n):
+                    x = rng.choice(texts)
+                    kind = rng.choice("nnnnsrl")
+                    args.append((kind, hx(x)) if x or kind != "c" else ("s", hx(x)))
+                st = rng.random()
+                ops = chain_pct(args) if st < 0.3 else chain_args(args) if st < 0.6 and n <= 8 else chain_mixed(args, rng)
+                fs.append([hx(" ".join(["{}"] * k))] + ops)
+            yield ("fmt " + " ".join(fs[0])) if len(fs) == 1 else ("seq " + " / ".join(" ".join(g) for g in fs)), "valcat-rand"
         # (v) operator<< into the caller's stream: all or nothing, and one item with respect to a pending width
         STREAMS = ["0 20 r", "12 20 r", "12 2a r", "12 2a l", "3 2a l", "1 30 i", "12 2e i", "6 2a r"]
         for f in strings("{}a", 4 if tier == "quick" else 5):
@@ -356,11 +388,11 @@ class C08(Check):
 
 def shrink_arg(e):
     """smaller well-formed arguments only"""
-    if e[0] == "s":
+    if e[0] in "snrl":
         h = e[1:]
         if h != "-":
             for j in range(0, len(h), 2):
-                yield "s" + ((h[:j] + h[j + 2:]) or "-")
+                yield e[0] + ((h[:j] + h[j + 2:]) or "-")
     else:
         yield "s-"
         if e[0] in "idfhxw" and len(e) > 2:
